@@ -49,7 +49,7 @@ type c09Case struct {
 func (c c09Case) public(submitted string) string {
 	return strings.Join([]string{submitted, fmt.Sprint(c.N), fmt.Sprintf("%x", c.N), fmt.Sprintf("%016x", c.N), fmt.Sprint(c.N / 30), fmt.Sprint(c.Digits), fmt.Sprint(c.Algo), fmt.Sprint(c.Skew),
 		fmt.Sprint(c.Period), ref.B32(c.Key), fmt.Sprintf("%x", c.Key), c.Reg, c.Cfg.Raw, fmt.Sprint(c.Cfg.Digits), fmt.Sprint(c.Cfg.TimeStep),
-		fmt.Sprintf("%x|%x|%x|%x|%x", c.In.C, c.In.Q, c.In.P, c.In.S, c.In.T), string(c.In.Q), string(c.In.S)}, "\x00")
+		fmt.Sprintf("%x|%x|%x|%x|%x", c.In.C, c.In.Q, c.In.P, c.In.S, c.In.T), string(c.In.Q), string(c.In.S), "SHA1 SHA256 SHA512 sha1 sha256 sha512"}, "\x00")
 }
 
 func (c c09Case) ocraSuite() (otp.Suite, ref.OCRACfg) {
@@ -273,24 +273,59 @@ func traced(f func()) traceResult {
 // window, period, secret text, suite name, input fields in hex): an operand that occurs there is caller data, even if
 // it happens to coincide with a stretch of the expected code (a counter 128 and an expected code 01284788).
 func tainted(evs []trace.StrEvent, public string, window, digests []string) string {
+	msg, _ := taintedOperand(evs, public, window, digests)
+	return msg
+}
+
+func taintedOperand(evs []trace.StrEvent, public string, window, digests []string) (string, string) {
 	for _, e := range evs {
 		for _, o := range []string{e.A, e.B} {
 			for _, w := range window {
 				if o == w && !strings.Contains(public, o) {
-					return fmt.Sprintf("string comparison %q vs %q: an operand is the expected code", e.A, e.B)
+					return fmt.Sprintf("string comparison %q vs %q: an operand is the expected code", e.A, e.B), o
 				}
 				if len(o) >= 3 && len(o) < len(w) && strings.Contains(w, o) && !strings.Contains(public, o) {
-					return fmt.Sprintf("string comparison %q vs %q: an operand is a fragment of the expected code %s", e.A, e.B, w)
+					return fmt.Sprintf("string comparison %q vs %q: an operand is a fragment of the expected code %s", e.A, e.B, w), o
 				}
 			}
 			for _, d := range digests {
 				if len(o) >= 8 && (o == d || strings.HasPrefix(d, o)) {
-					return fmt.Sprintf("string comparison %q vs %q: an operand is the HMAC digest", e.A, e.B)
+					return fmt.Sprintf("string comparison %q vs %q: an operand is the HMAC digest", e.A, e.B), o
 				}
 			}
 		}
 	}
-	return ""
+	return "", ""
+}
+
+// taintOf is tainted plus a confirmation: taint by value can be a coincidence — a constant of the program ("256" of an
+// algorithm-name table) or a piece of caller data happens to occur inside the expected code. A value derived from the
+// HMAC changes with the key; a constant does not. The same call is traced again under a different secret: if the very
+// same operand shows up there as well and is not derived from THAT secret's codes either, it is not HMAC-derived.
+func (c c09Case) taintOf(evs []trace.StrEvent, submitted string, window, digests []string) string {
+	msg, operand := taintedOperand(evs, c.public(submitted), window, digests)
+	if msg == "" {
+		return ""
+	}
+	c2 := c
+	c2.Key = append([]byte(nil), c.Key...)
+	if len(c2.Key) == 0 {
+		c2.Key = []byte{0x5a}
+	} else {
+		c2.Key[0] ^= 0x5a
+		c2.Key[len(c2.Key)-1] ^= 0xa5
+	}
+	_, window2, digests2 := c2.expected()
+	call := c2.prepare(submitted)
+	tr := traced(func() { call() })
+	for _, e := range tr.str {
+		if e.A == operand || e.B == operand {
+			if m2, _ := taintedOperand([]trace.StrEvent{{A: operand, B: ""}}, c2.public(submitted), window2, digests2); m2 == "" {
+				return "" // the same operand under another secret, unrelated to that secret's codes: a constant or caller data
+			}
+		}
+	}
+	return msg
 }
 
 func checkC09(c c09Case) verdict {
@@ -307,7 +342,7 @@ func checkC09(c c09Case) verdict {
 	}
 	baseCall := c.prepare(string(un))
 	base := traced(func() { baseCall() })
-	if t := tainted(base.str, c.public(string(un)), window, digests); t != "" {
+	if t := c.taintOf(base.str, string(un), window, digests); t != "" {
 		return bad(true, labels, "%s: %s (submitted %s, expected %s)", c.Entry, t, un, e)
 	}
 	for k := 0; k < len(e); k++ {
@@ -319,7 +354,7 @@ func checkC09(c c09Case) verdict {
 			if accepted {
 				return bad(true, labels, "HARNESS/C03: wrong code %s accepted (expected %s)", code, e)
 			}
-			if t := tainted(tr.str, c.public(code), window, digests); t != "" {
+			if t := c.taintOf(tr.str, code, window, digests); t != "" {
 				return bad(true, labels, "%s: %s (submitted %s, expected %s, %d leading characters correct)", c.Entry, t, code, e, k)
 			}
 			if !sameDur(tr.dur, base.dur) && durationsDependOnCode(c, code, string(un)) {
